@@ -1,4 +1,4 @@
-import RoaringModel.Inv
+import RoaringModel.Lemmas.WordLemmas
 /-!
 # BitmapStore basics (bitmap_store.rs): the abstraction `toArray`, single-bit operations, min/max, conversions
 
@@ -8,61 +8,401 @@ All statements are about `Roaring.BStore.*` (BitmapStore.lean) under `BStore.Inv
 namespace Roaring
 namespace BStore
 
-/-! ### word level (Word.lean) -/
-theorem tz_testBit (w : Nat) (h : w ≠ 0) : w.testBit (tz w) = true ∧ ∀ i, i < tz w → w.testBit i = false := by sorry
-theorem tz_lt (w : Nat) (h : w ≠ 0) (hlt : w < 2^64) : tz w < 64 := by sorry
+/-! ### word level (Word.lean) — proofs in `WordLemmas.lean` (`Roaring.Word.*`) -/
+theorem tz_testBit (w : Nat) (h : w ≠ 0) : w.testBit (tz w) = true ∧ ∀ i, i < tz w → w.testBit i = false :=
+  Word.tz_testBit w h
+theorem tz_lt (w : Nat) (h : w ≠ 0) (hlt : w < 2^64) : tz w < 64 := Word.tz_lt w h hlt
 theorem popLow_testBit (w : Nat) (h : w ≠ 0) (i : Nat) :
-    (popLow w).testBit i = (w.testBit i && decide (i ≠ tz w)) := by sorry
-theorem hiBit_testBit (w : Nat) (h : w ≠ 0) : w.testBit (hiBit w) = true ∧ ∀ i, hiBit w < i → w.testBit i = false := by sorry
-theorem popcount_eq (w : Nat) (h : w < 2^64) : popcount w = (bitPos w).length := by sorry
-theorem mem_bitPos (w i : Nat) : i ∈ bitPos w ↔ i < 64 ∧ w.testBit i = true := by sorry
-theorem sorted_bitPos (w : Nat) : Sorted (bitPos w) := by sorry
+    (popLow w).testBit i = (w.testBit i && decide (i ≠ tz w)) := Word.popLow_testBit w h i
+theorem hiBit_testBit (w : Nat) (h : w ≠ 0) : w.testBit (hiBit w) = true ∧ ∀ i, hiBit w < i → w.testBit i = false :=
+  Word.hiBit_testBit w h
+theorem popcount_eq (w : Nat) (h : w < 2^64) : popcount w = (bitPos w).length := Word.popcount_eq w h
+theorem mem_bitPos (w i : Nat) : i ∈ bitPos w ↔ i < 64 ∧ w.testBit i = true := Word.mem_bitPos w i
+theorem sorted_bitPos (w : Nat) : Sorted (bitPos w) := Word.sorted_bitPos w
 /-- the `while word != 0 { push(tz); word &= word - 1 }` loop lists exactly the set bits, ascending -/
-theorem drainWord_eq (base w : Nat) (h : w < 2^64) : drainWord base 64 w = (bitPos w).map (base + ·) := by sorry
+theorem drainWord_eq (base w : Nat) (h : w < 2^64) : drainWord base 64 w = (bitPos w).map (base + ·) :=
+  Word.drainWord_eq base w h
 
 /-! ### the abstraction -/
-theorem mem_toArray (b : BStore) (hb : b.Inv) (x : Nat) : x ∈ b.toArray ↔ x < 65536 ∧ b.test x = true := by sorry
-theorem sorted_toArray (b : BStore) (hb : b.Inv) : Sorted b.toArray := by sorry
-theorem toArray_lt (b : BStore) (hb : b.Inv) : ∀ x ∈ b.toArray, x < 65536 := by sorry
-theorem length_toArray (b : BStore) (hb : b.Inv) : b.toArray.length = b.len := by sorry
-theorem inv_toArray (b : BStore) (hb : b.Inv) : Arr.Inv b.toArray := by sorry
 
-theorem inv_new : BStore.new.Inv := by sorry
-theorem toArray_new : BStore.new.toArray = [] := by sorry
-theorem inv_full : BStore.full.Inv := by sorry
-theorem mem_toArray_full (x : Nat) : x ∈ BStore.full.toArray ↔ x < 65536 := by sorry
+theorem toArrayFrom_nil (k : Nat) : toArrayFrom k [] = [] := rfl
+
+theorem toArrayFrom_cons (k w : Nat) (ws : List Nat) (h : w < 2^64) :
+    toArrayFrom k (w :: ws) = bitsOf k w ++ toArrayFrom (k + 1) ws := by
+  rw [toArrayFrom, Word.drainWord_eq_bitsOf k w h]
+
+/-- membership in the listing of the words `ws` placed at word indices `k, k+1, …` -/
+theorem mem_toArrayFrom (ws : List Nat) (h : ∀ w ∈ ws, w < 2^64) (k x : Nat) :
+    x ∈ toArrayFrom k ws ↔
+      k ≤ x / 64 ∧ x / 64 < k + ws.length ∧ (word ws (x / 64 - k)).testBit (x % 64) = true := by
+  induction ws generalizing k with
+  | nil => simp only [toArrayFrom_nil, List.not_mem_nil, List.length_nil, false_iff]; omega
+  | cons w ws ih =>
+    have hw : w < 2^64 := h w (by simp)
+    have hws : ∀ w ∈ ws, w < 2^64 := fun v hv => h v (by simp [hv])
+    rw [toArrayFrom_cons k w ws hw, List.mem_append, Word.mem_bitsOf, ih hws (k + 1), List.length_cons]
+    by_cases hk : x / 64 = k
+    · have h0 : x / 64 - k = 0 := by omega
+      rw [h0, Word.word_cons_zero]
+      constructor
+      · rintro (⟨_, hb⟩ | ⟨h1, _⟩)
+        · exact ⟨by omega, by omega, hb⟩
+        · omega
+      · rintro ⟨_, _, hb⟩; exact Or.inl ⟨hk, hb⟩
+    · constructor
+      · rintro (⟨h1, _⟩ | ⟨h1, h2, hb⟩)
+        · exact absurd h1 hk
+        · have h0 : x / 64 - k = (x / 64 - (k + 1)) + 1 := by omega
+          rw [h0, Word.word_cons_succ]
+          exact ⟨by omega, by omega, hb⟩
+      · rintro ⟨h1, h2, hb⟩
+        have h0 : x / 64 - k = (x / 64 - (k + 1)) + 1 := by omega
+        rw [h0, Word.word_cons_succ] at hb
+        exact Or.inr ⟨by omega, by omega, hb⟩
+
+theorem sorted_toArrayFrom (ws : List Nat) (h : ∀ w ∈ ws, w < 2^64) (k : Nat) :
+    Sorted (toArrayFrom k ws) := by
+  induction ws generalizing k with
+  | nil => simp [toArrayFrom_nil, Sorted]
+  | cons w ws ih =>
+    have hw : w < 2^64 := h w (by simp)
+    have hws : ∀ w ∈ ws, w < 2^64 := fun v hv => h v (by simp [hv])
+    rw [toArrayFrom_cons k w ws hw, Sorted, List.pairwise_append]
+    refine ⟨Word.sorted_bitsOf k w, ih hws (k + 1), ?_⟩
+    intro a ha b hb
+    rw [Word.mem_bitsOf] at ha
+    rw [mem_toArrayFrom ws hws] at hb
+    omega
+
+theorem length_toArrayFrom (ws : List Nat) (h : ∀ w ∈ ws, w < 2^64) (k : Nat) :
+    (toArrayFrom k ws).length = popSum ws := by
+  induction ws generalizing k with
+  | nil => rfl
+  | cons w ws ih =>
+    have hw : w < 2^64 := h w (by simp)
+    have hws : ∀ w ∈ ws, w < 2^64 := fun v hv => h v (by simp [hv])
+    rw [toArrayFrom_cons k w ws hw, List.length_append, Word.length_bitsOf, ih hws, Word.popSum_cons,
+      Word.popcount_eq w hw]
+
+theorem mem_toArray (b : BStore) (hb : b.Inv) (x : Nat) : x ∈ b.toArray ↔ x < 65536 ∧ b.test x = true := by
+  unfold toArray test
+  rw [mem_toArrayFrom b.bits hb.words 0 x, hb.length]
+  simp only [Nat.sub_zero]
+  constructor
+  · rintro ⟨_, h1, h2⟩; exact ⟨by omega, h2⟩
+  · rintro ⟨h1, h2⟩; exact ⟨by omega, by omega, h2⟩
+
+theorem sorted_toArray (b : BStore) (hb : b.Inv) : Sorted b.toArray :=
+  sorted_toArrayFrom b.bits hb.words 0
+
+theorem toArray_lt (b : BStore) (hb : b.Inv) : ∀ x ∈ b.toArray, x < 65536 :=
+  fun x hx => ((mem_toArray b hb x).1 hx).1
+
+theorem length_toArray (b : BStore) (hb : b.Inv) : b.toArray.length = b.len := by
+  rw [hb.len]; exact length_toArrayFrom b.bits hb.words 0
+
+theorem inv_toArray (b : BStore) (hb : b.Inv) : Arr.Inv b.toArray :=
+  ⟨sorted_toArray b hb, toArray_lt b hb⟩
+
+theorem inv_new : BStore.new.Inv := by
+  refine ⟨List.length_replicate, ?_, ?_⟩
+  · intro w hw
+    have := (List.mem_replicate.1 hw).2
+    rw [this]; decide
+  · show 0 = popSum (List.replicate 1024 0)
+    rw [Word.popSum_replicate, popcount_zero]
+
+theorem test_new (x : Nat) : BStore.new.test x = false := by
+  unfold test new zeros
+  by_cases h : x / 64 < 1024
+  · rw [Word.word_replicate _ _ _ h, Nat.zero_testBit]
+  · rw [Word.word_of_le _ _ (by rw [List.length_replicate]; omega), Nat.zero_testBit]
+
+theorem toArray_new : BStore.new.toArray = [] := by
+  apply List.eq_nil_iff_forall_not_mem.2
+  intro x hx
+  have := ((mem_toArray _ inv_new x).1 hx).2
+  rw [test_new] at this; exact Bool.false_ne_true this
+
+theorem inv_full : BStore.full.Inv := by
+  refine ⟨List.length_replicate, ?_, ?_⟩
+  · intro w hw
+    have := (List.mem_replicate.1 hw).2
+    rw [this]; exact Word.wMax_lt
+  · show 65536 = popSum (List.replicate 1024 wMax)
+    rw [Word.popSum_replicate, Word.popcount_wMax]
+
+theorem test_full (x : Nat) (h : x < 65536) : BStore.full.test x = true := by
+  unfold test full
+  rw [Word.word_replicate _ _ _ (by omega), Word.wMax_eq, Nat.testBit_two_pow_sub_one]
+  simp; omega
+
+theorem mem_toArray_full (x : Nat) : x ∈ BStore.full.toArray ↔ x < 65536 := by
+  rw [mem_toArray _ inv_full]
+  constructor
+  · exact fun h => h.1
+  · exact fun h => ⟨h, test_full x h⟩
 
 /-- equal bits ⇒ equal stores (canonical form of a bitset) -/
-theorem ext (a b : BStore) (ha : a.Inv) (hb : b.Inv) (h : ∀ x, x < 65536 → a.test x = b.test x) : a = b := by sorry
+theorem ext (a b : BStore) (ha : a.Inv) (hb : b.Inv) (h : ∀ x, x < 65536 → a.test x = b.test x) : a = b := by
+  have hbits : a.bits = b.bits := by
+    apply Word.bits_ext a.bits b.bits (by rw [ha.length, hb.length]) ha.words hb.words
+    intro i hi
+    rw [ha.length] at hi
+    exact h i (by omega)
+  have hlen : a.len = b.len := by rw [ha.len, hb.len, hbits]
+  cases a; cases b; simp_all
 
 /-! ### single-bit operations -/
-theorem contains_eq_test (b : BStore) (i : Nat) : b.contains i = b.test i := by sorry
+theorem contains_eq_test (b : BStore) (i : Nat) : b.contains i = b.test i := by
+  unfold contains test wkey wbit
+  exact Word.and_one_shiftLeft_ne_zero _ _
+
+/-- `insert` in closed form (no hypothesis needed) -/
+theorem insert_eq (b : BStore) (i : Nat) :
+    b.insert i = ({ len := b.len + (if b.test i then 0 else 1),
+                    bits := b.bits.set (i / 64) (word b.bits (i / 64) ||| (1 <<< (i % 64))) }, !b.test i) := by
+  unfold insert test wkey wbit
+  simp only [Word.xor_setBit_shiftRight]
+  cases h : (word b.bits (i / 64)).testBit (i % 64) <;> simp
+
+/-- `remove` in closed form -/
+theorem remove_eq (b : BStore) (hw : ∀ w ∈ b.bits, w < 2^64) (i : Nat) :
+    b.remove i = ({ len := b.len - (if b.test i then 1 else 0),
+                    bits := b.bits.set (i / 64) (word b.bits (i / 64) &&& not64 (1 <<< (i % 64))) }, b.test i) := by
+  unfold remove test wkey wbit
+  simp only [Word.xor_clearBit_shiftRight _ _ (Word.word_lt b.bits hw (i / 64))]
+  cases h : (word b.bits (i / 64)).testBit (i % 64) <;> simp
 
 theorem insert_spec (b : BStore) (hb : b.Inv) (i : Nat) (hi : i < 65536) :
     (b.insert i).1.Inv ∧ (∀ x, x < 65536 → (b.insert i).1.test x = (decide (x = i) || b.test x)) ∧
-    (b.insert i).2 = !b.test i := by sorry
+    (b.insert i).2 = !b.test i := by
+  have hk : i / 64 < b.bits.length := by rw [hb.length]; omega
+  have hbit : i % 64 < 64 := by omega
+  have hold : word b.bits (i / 64) < 2^64 := Word.word_lt _ hb.words _
+  rw [insert_eq]
+  refine ⟨⟨?_, ?_, ?_⟩, ?_, rfl⟩
+  · simp [hb.length]
+  · exact Word.mem_set_lt _ _ _ hb.words (Word.setBit_lt hold hbit)
+  · have := Word.popSum_set b.bits (i / 64) (word b.bits (i / 64) ||| (1 <<< (i % 64))) hk
+    rw [Word.popcount_setBit _ _ hold hbit] at this
+    simp only [hb.len]
+    by_cases htb : b.test i = true
+    · have htb' : (word b.bits (i / 64)).testBit (i % 64) = true := htb
+      rw [if_pos htb]; rw [if_pos htb'] at this; omega
+    · have htb' : ¬ (word b.bits (i / 64)).testBit (i % 64) = true := htb
+      rw [if_neg htb]; rw [if_neg htb'] at this; omega
+  · intro x _
+    simp only [test]
+    rw [Word.word_set]
+    by_cases hc : x / 64 = i / 64
+    · rw [if_pos ⟨hc, hk⟩, Word.testBit_setBit, hc]
+      by_cases hm : i % 64 = x % 64
+      · have : x = i := by omega
+        subst this; simp
+      · have : ¬ x = i := by intro h; subst h; exact hm rfl
+        simp [hm, this]
+    · have : ¬ x = i := by intro h; subst h; exact hc rfl
+      simp [hc, this]
 
 theorem remove_spec (b : BStore) (hb : b.Inv) (i : Nat) (hi : i < 65536) :
     (b.remove i).1.Inv ∧ (∀ x, x < 65536 → (b.remove i).1.test x = (decide (x ≠ i) && b.test x)) ∧
-    (b.remove i).2 = b.test i := by sorry
+    (b.remove i).2 = b.test i := by
+  have hk : i / 64 < b.bits.length := by rw [hb.length]; omega
+  have hold : word b.bits (i / 64) < 2^64 := Word.word_lt _ hb.words _
+  rw [remove_eq b hb.words]
+  refine ⟨⟨?_, ?_, ?_⟩, ?_, rfl⟩
+  · simp [hb.length]
+  · exact Word.mem_set_lt _ _ _ hb.words (Word.clearBit_lt _ hold)
+  · have := Word.popSum_set b.bits (i / 64) (word b.bits (i / 64) &&& not64 (1 <<< (i % 64))) hk
+    have h2 := Word.popcount_clearBit (word b.bits (i / 64)) (i % 64) hold
+    have h3 := Word.popcount_word_le_popSum b.bits (i / 64)
+    simp only [hb.len]
+    by_cases htb : b.test i = true
+    · have htb' : (word b.bits (i / 64)).testBit (i % 64) = true := htb
+      rw [if_pos htb]; rw [if_pos htb'] at h2; omega
+    · have htb' : ¬ (word b.bits (i / 64)).testBit (i % 64) = true := htb
+      rw [if_neg htb]; rw [if_neg htb'] at h2; omega
+  · intro x _
+    simp only [test]
+    rw [Word.word_set]
+    by_cases hc : x / 64 = i / 64
+    · rw [if_pos ⟨hc, hk⟩, Word.testBit_clearBit _ _ _ (by omega), hc]
+      by_cases hm : i % 64 = x % 64
+      · have : x = i := by omega
+        subst this; simp
+      · have : ¬ x = i := by intro h; subst h; exact hm rfl
+        simp [hm, this]
+    · have : ¬ x = i := by intro h; subst h; exact hc rfl
+      simp [hc, this]
 
-theorem min?_spec (b : BStore) (hb : b.Inv) : b.min? = b.toArray.head? := by sorry
-theorem max?_spec (b : BStore) (hb : b.Inv) : b.max? = b.toArray.getLast? := by sorry
+/-! ### min / max / push -/
 
+theorem min?_eq_map (b : BStore) :
+    b.min? = (b.bits.zipIdx.find? (fun p => p.1 != 0)).map (fun p => p.2 * 64 + tz p.1) := by
+  unfold min?; split <;> simp [*]
+
+theorem max?_eq_map (b : BStore) :
+    b.max? = (b.bits.zipIdx.reverse.find? (fun p => p.1 != 0)).map (fun p => p.2 * 64 + hiBit p.1) := by
+  unfold max?; split <;> simp [*]
+
+theorem min?_from (ws : List Nat) (k : Nat) :
+    ((ws.zipIdx k).find? (fun p => p.1 != 0)).map (fun p => p.2 * 64 + tz p.1) = (toArrayFrom k ws).head? := by
+  induction ws generalizing k with
+  | nil => rfl
+  | cons w ws ih =>
+    rw [List.zipIdx_cons, List.find?_cons]
+    by_cases h0 : w = 0
+    · subst h0
+      simp only [bne_self_eq_false]
+      rw [ih (k + 1)]
+      simp [toArrayFrom, drainWord]
+    · have hne : (w != 0) = true := by simp [h0]
+      simp only [hne, Option.map_some, toArrayFrom, drainWord, if_neg h0, List.cons_append, List.head?_cons]
+      congr 1
+      omega
+
+theorem max?_from (ws : List Nat) (h : ∀ w ∈ ws, w < 2^64) (k : Nat) :
+    ((ws.zipIdx k).reverse.find? (fun p => p.1 != 0)).map (fun p => p.2 * 64 + hiBit p.1)
+      = (toArrayFrom k ws).getLast? := by
+  induction ws generalizing k with
+  | nil => rfl
+  | cons w ws ih =>
+    have hw : w < 2^64 := h w (by simp)
+    have hws : ∀ w ∈ ws, w < 2^64 := fun v hv => h v (by simp [hv])
+    rw [List.zipIdx_cons, List.reverse_cons, List.find?_append, Option.map_or, ih hws (k + 1),
+      toArrayFrom_cons k w ws hw, List.getLast?_append]
+    congr 1
+    by_cases h0 : w = 0
+    · subst h0; simp [Word.bitsOf_zero]
+    · simp only [bitsOf, List.getLast?_map, Word.getLast?_bitPos w h0 hw]
+      simp [h0]
+      omega
+
+set_option linter.unusedVariables false in
+theorem min?_spec (b : BStore) (hb : b.Inv) : b.min? = b.toArray.head? := by
+  rw [min?_eq_map]; exact min?_from b.bits 0
+
+theorem max?_spec (b : BStore) (hb : b.Inv) : b.max? = b.toArray.getLast? := by
+  rw [max?_eq_map]; exact max?_from b.bits hb.words 0
+
+/-- `max?` is the maximum of the listing -/
+theorem max?_eq_none_iff (b : BStore) (hb : b.Inv) : b.max? = none ↔ b.toArray = [] := by
+  rw [max?_spec b hb]; exact List.getLast?_eq_none_iff
+
+theorem max?_eq_some (b : BStore) (hb : b.Inv) (m : Nat) (h : b.max? = some m) :
+    m ∈ b.toArray ∧ ∀ x ∈ b.toArray, x ≤ m := by
+  rw [max?_spec b hb] at h
+  exact Word.sorted_le_getLast _ (sorted_toArray b hb) m h
+
+set_option linter.unusedVariables false in
 theorem push_spec (b : BStore) (hb : b.Inv) (i : Nat) (hi : i < 65536) :
-    (b.push i) = if (∀ x ∈ b.toArray, x < i) then ((b.insert i).1, true) else (b, false) := by sorry
+    (b.push i) = if (∀ x ∈ b.toArray, x < i) then ((b.insert i).1, true) else (b, false) := by
+  unfold push
+  cases hm : b.max? with
+  | none =>
+    have := (max?_eq_none_iff b hb).1 hm
+    rw [if_pos (by rw [this]; simp)]
+  | some m =>
+    have ⟨h1, h2⟩ := max?_eq_some b hb m hm
+    by_cases hlt : m < i
+    · rw [if_pos (by intro x hx; have := h2 x hx; omega)]
+      simp [hlt]
+    · rw [if_neg (by intro hall; exact hlt (hall m h1))]
+      simp [hlt]
 
+set_option linter.unusedVariables false in
 theorem pushUnchecked_spec (dbg : Bool) (b : BStore) (hb : b.Inv) (i : Nat) (hi : i < 65536)
-    (hmax : ∀ x ∈ b.toArray, x < i) : b.pushUnchecked dbg i = some (b.insert i).1 := by sorry
+    (hmax : ∀ x ∈ b.toArray, x < i) : b.pushUnchecked dbg i = some (b.insert i).1 := by
+  unfold pushUnchecked
+  cases dbg with
+  | false => simp
+  | true =>
+    cases hm : b.max? with
+    | none => simp
+    | some m =>
+      have ⟨h1, _⟩ := max?_eq_some b hb m hm
+      have := hmax m h1
+      simp [this]
 
 /-! ### conversions -/
+
+/-- two stores satisfying the invariant list the same values iff they are equal -/
+theorem toArray_inj (a b : BStore) (ha : a.Inv) (hb : b.Inv) (h : a.toArray = b.toArray) : a = b := by
+  apply ext a b ha hb
+  intro x hx
+  have h1 := mem_toArray a ha x
+  have h2 := mem_toArray b hb x
+  rw [h] at h1
+  cases hta : a.test x <;> cases htb : b.test x <;> simp_all
+
+/-- inserting a strictly ascending run of fresh values: the `ArrayStore::to_bitmap_store` loop, from any start -/
+theorem foldl_setBit_spec (v : List Nat) (hv : Sorted v) (b : BStore) (hb : b.Inv)
+    (hfresh : ∀ x ∈ v, x < 65536 ∧ b.test x = false) :
+    let b' : BStore := { len := b.len + v.length,
+                         bits := v.foldl (fun bits i => bits.set (wkey i) (word bits (wkey i) ||| (1 <<< wbit i))) b.bits }
+    b'.Inv ∧ ∀ x, x < 65536 → b'.test x = (b.test x || decide (x ∈ v)) := by
+  induction v generalizing b with
+  | nil => simp; exact hb
+  | cons a v ih =>
+    have ⟨ha, hta⟩ := hfresh a (by simp)
+    have hsp := insert_spec b hb a ha
+    rw [insert_eq] at hsp
+    simp only [hta] at hsp
+    obtain ⟨hinv, htest, _⟩ := hsp
+    unfold Sorted at hv
+    rw [List.pairwise_cons] at hv
+    have hfresh' : ∀ x ∈ v, x < 65536 ∧
+        (BStore.mk (b.len + 1) (b.bits.set (a / 64) (word b.bits (a / 64) ||| (1 <<< (a % 64))))).test x = false := by
+      intro x hx
+      have ⟨hx1, hx2⟩ := hfresh x (by simp [hx])
+      refine ⟨hx1, ?_⟩
+      have hne : ¬ x = a := by have := hv.1 x hx; omega
+      have := htest x hx1
+      simp only [Bool.false_eq_true, if_false] at this
+      rw [this, hx2]; simp [hne]
+    have := ih hv.2 _ hinv hfresh'
+    simp only [Bool.false_eq_true, if_false] at this htest
+    simp only [List.foldl_cons, List.length_cons]
+    rw [show wkey a = a / 64 from rfl, show wbit a = a % 64 from rfl]
+    have hl : b.len + (v.length + 1) = b.len + 1 + v.length := by omega
+    rw [hl]
+    refine ⟨this.1, ?_⟩
+    intro x hx
+    rw [this.2 x hx, htest x hx]
+    by_cases hxa : x = a
+    · simp [hxa]
+    · simp [hxa]
+
 /-- `ArrayStore::to_bitmap_store` -/
 theorem arrToBitmap_spec (v : List Nat) (hv : Arr.Inv v) :
-    (Store.arrToBitmap v).Inv ∧ (Store.arrToBitmap v).toArray = v := by sorry
+    (Store.arrToBitmap v).Inv ∧ (Store.arrToBitmap v).toArray = v := by
+  have h := foldl_setBit_spec v hv.1 BStore.new inv_new (fun x hx => ⟨hv.2 x hx, test_new x⟩)
+  have heq : Store.arrToBitmap v =
+      { len := BStore.new.len + v.length,
+        bits := v.foldl (fun bits i => bits.set (wkey i) (word bits (wkey i) ||| (1 <<< wbit i))) BStore.new.bits } := by
+    show BStore.mk _ _ = BStore.mk _ _
+    congr 1
+    show v.length = 0 + v.length
+    omega
+  rw [← heq] at h
+  refine ⟨h.1, ?_⟩
+  apply Word.sorted_ext _ _ (sorted_toArray _ h.1) hv.1
+  intro x
+  rw [mem_toArray _ h.1]
+  constructor
+  · rintro ⟨hx, ht⟩
+    rw [h.2 x hx, test_new] at ht
+    simpa using ht
+  · intro hx
+    refine ⟨hv.2 x hx, ?_⟩
+    rw [h.2 x (hv.2 x hx)]; simp [hx]
 
 /-- `try_from` accepts exactly the correct cardinality -/
 theorem tryFrom_spec (len : Nat) (bits : List Nat) :
-    tryFrom len bits = if len = popSum bits then some { len, bits } else none := by sorry
+    tryFrom len bits = if len = popSum bits then some { len, bits } else none := by
+  unfold tryFrom
+  by_cases h : len = popSum bits <;> simp [h]
 
 end BStore
 end Roaring
